@@ -218,6 +218,7 @@ def args_parser_match_array(val, arr, match_type=1):
     val[b] = np.char.upper(val[b].astype(str))
     lookup_array = np.ravel(arr).copy()
     arr_types = _vect_get_type_id(lookup_array)
+    arr_types[[v is sh.EMPTY for v in lookup_array]] = -1  # Never match.
     b = arr_types == 1
     lookup_array[b] = np.char.upper(lookup_array[b].astype(str))
     index = np.arange(1, lookup_array.size + 1)
